@@ -217,6 +217,8 @@ def run(trace):
                     continue
                 if dst[side].path is not None and dst[side].path != src[side].path:
                     continue        # the engine only merges side states of entries that stand for the same path
+                if src[side].oid is None:
+                    continue        # ... and only side states that have an id (every call site moves a side it just looked up)
                 src_changed = bool(src[side].changed)
                 dst[side] = src[side]
                 if src_changed:
